@@ -282,7 +282,8 @@ IndexAssign(c, cv, iv, v) ==
     ELSE IF IsList(c, cv) /\ iv.t = "int" THEN
         (LET l == c.store[cv.v].v IN
          IF iv.v >= 0 /\ iv.v < Len(l)
-            THEN Rt([c EXCEPT !.store[cv.v].v[iv.v + 1] = v], VBot)
+            \* guide, Assigning Variables: the result of an assignment is the value that's being assigned
+            THEN Rt([c EXCEPT !.store[cv.v].v[iv.v + 1] = v], v)
             ELSE RtErr(c, "index"))
     ELSE IF IsList(c, cv) /\ iv.t = "rng" THEN Unspec(c, "slice-assign")
     ELSE IF IsMap(c, cv) THEN
@@ -382,7 +383,8 @@ IterNext(c, it) ==
 ElemsOf(c, v) ==       \* elements a value unpacks to; [ok |-> FALSE] when not statically known here
     CASE v.t = "tup" -> [ok |-> TRUE, s |-> v.v]
       [] v.t = "ref" /\ c.store[v.v].k = "list" -> [ok |-> TRUE, s |-> c.store[v.v].v]
-      [] v.t = "ref" /\ c.store[v.v].k = "map" ->
+      \* (an object may take part in unpacking through its own protocols -- @next, @iterator, @index, @size: not modelled here)
+      [] v.t = "ref" /\ c.store[v.v].k = "map" /\ c.store[v.v].meta = <<>> ->
             [ok |-> TRUE, s |-> [i \in 1 .. Len(c.store[v.v].ks) |->
                                   VTup(<<c.store[v.v].ks[i], c.store[v.v].vs[i]>>)]]
       [] v.t = "rng" -> (IF RngLen(v) <= 64 /\ v.a <= v.b
@@ -956,8 +958,8 @@ Apply(c, node, vs) ==
              IF cur.ctl.m # "rt" THEN cur
              ELSE LET r == BinOp(c, node.op, cur.ctl.v, vs[3]) IN
                   IF r.ctl.m # "rt" THEN r
-                  ELSE LET w == IndexAssign(r, vs[1], vs[2], r.ctl.v) IN
-                       IF w.ctl.m = "rt" THEN Rt(w, VBot) ELSE w)
+                  \* guide: `print! a += 11` shows the new value
+                  ELSE IndexAssign(r, vs[1], vs[2], r.ctl.v))
       [] node.k = "dot" ->
             (IF HasMeta(c, vs[1], "@access") THEN MetaCall(c, MetaVal(c, vs[1], "@access"), vs[1], <<VStr(node.n)>>, [t |-> "val"])
              ELSE IF IsObj(c, vs[1]) THEN
@@ -974,14 +976,18 @@ Apply(c, node, vs) ==
              ELSE IF IsMap(c, vs[1]) THEN
                 (LET o == c.store[vs[1].v] IN
                  IF HasMeta(c, vs[1], "@access") THEN Unspec(c, "meta-dot")
-                 ELSE Rt([c EXCEPT !.store[vs[1].v] = MapPut(o, VStr(node.n), vs[2])], VBot))
+                 ELSE Rt([c EXCEPT !.store[vs[1].v] = MapPut(o, VStr(node.n), vs[2])], vs[2]))
              ELSE IF IsBot(vs[1]) \/ vs[1].t = "estr" THEN Unspec(c, "dasg-bot") ELSE RtErr(c, "dasg-kind"))
       [] node.k = "dopasg" ->
             (IF IsMap(c, vs[1]) THEN
                 (LET o == c.store[vs[1].v] IN
-                 IF o.meta # <<>> THEN Unspec(c, "meta-dot")
+                 \* an object's own data entry is read and replaced like a plain map's, unless access is overridden or may
+                 \* fall back to a base (guide: @access, @access_assign, @base)
+                 IF HasMeta(c, vs[1], "@access") \/ HasMeta(c, vs[1], "@access_assign") \/ HasMeta(c, vs[1], "@base")
+                    THEN Unspec(c, "meta-dot")
                  ELSE LET cur == MapGet(o, VStr(node.n)) IN
                       IF ~cur.ok THEN Unspec(c, "dot-missing")
+                      ELSE IF IsObj(c, cur.v) THEN Unspec(c, "dopasg-object-operand")
                       ELSE LET r == BinOp(c, node.op, cur.v, vs[2]) IN
                            IF r.ctl.m # "rt" THEN r
                            ELSE [r EXCEPT !.store[vs[1].v] = MapPut(r.store[vs[1].v], VStr(node.n), r.ctl.v)])
